@@ -323,6 +323,15 @@ class _UnwindOps:
         elif isinstance(target, ast.Attribute) and ev.eval(target.value, env) == "SELF":
             env["@f:" + target.attr] = value
 
+    def other(self, e, env, ev):
+        # ``exc_details[1]``: an entry of the triple kept in one local
+        if isinstance(e, ast.Subscript) and isinstance(e.slice, ast.Constant) and isinstance(e.slice.value, int):
+            seq = ev.eval(e.value, env)
+            if isinstance(seq, tuple) and seq[:1] not in (("SEQ",), ("AW",), ("new",), ("type",), ("CONT",), ("tb",), ("method",)) \
+                    and -len(seq) <= e.slice.value < len(seq):
+                return seq[e.slice.value]
+        return UNKNOWN
+
     def truth(self, v, env):
         if self._is_cont(v):
             return len(self._get(env, v)) > 0
@@ -382,9 +391,25 @@ class _UnwindOps:
         fv = self._callee(node, env)
         if isinstance(fv, str) and fv.startswith("CB"):
             # calling a registered exit gives its awaitable; what awaiting it does is the scenario's outcome
+            if any(isinstance(a, ast.Starred) for a in node.args):
+                args = self._call_args(node, env, AbsEval(self))
             env["@trace"] = env["@trace"] + ((fv, tuple(args)),)
             return ("AW", fv, tuple(args))
         return UNKNOWN
+
+    def _call_args(self, call, env, ev):
+        """the positional arguments of a call, ``*triple`` (the exception details kept in one local) spliced in"""
+        args = []
+        for a in call.args:
+            if isinstance(a, ast.Starred):
+                seq = ev.eval(a.value, env)
+                if isinstance(seq, tuple) and seq[:1] not in (("SEQ",), ("AW",), ("new",), ("type",), ("CONT",), ("tb",), ("method",)):
+                    args.extend(seq)
+                else:
+                    args.append(UNKNOWN)
+            else:
+                args.append(ev.eval(a, env))
+        return tuple(args)
 
     def _callee(self, node, env):
         """the value of a call's function expression (inner calls were evaluated at their own CFG
@@ -431,7 +456,7 @@ class _UnwindOps:
             # outcome C: the exit fails when it is *called* (a synchronous exit wrapped for awaiting runs then)
             fv = self._callee(node.ast, env)
             if isinstance(fv, str) and fv.startswith("CB") and self.scenario[fv] == "C":
-                args = tuple(ev.eval(a, env) for a in node.ast.args)
+                args = self._call_args(node.ast, env, ev)
                 env["@trace"] = env["@trace"] + ((fv, args),)
                 return "E_" + fv
             return None
@@ -1175,6 +1200,13 @@ class _PopAllOps:
             return "NEW"
         if func in ("ExitStack", "self.__class__", "type(self)"):
             return "NEW"
+        return UNKNOWN
+
+    def other(self, e, env, ev):
+        if isinstance(e, ast.List) and not e.elts:
+            # ``[]``: a fresh empty list (the container may be a plain list)
+            self.fresh += 1
+            return ("fresh", self.fresh, ())
         return UNKNOWN
 
     def store(self, target, value, env, ev):
